@@ -129,6 +129,22 @@ pub fn run(a: &Args) -> i32 {
         let d = dmax.min(2);
         let r = call(&mut g_all, &p, d, None);
         check("generator that served all earlier seeds", s, &p, d, r, tab, &mut calls, &mut counted);
+        // (d) pool sizes
+        let pd = if thorough { dmax } else { dmax.min(3) };
+        for (n, pl) in &pools {
+            // quick tier: all four pool sizes on the first two seeds and on the ep-transposition
+            // seed, a single-thread pool (sequential order) on three more small ones
+            let small = matches!(s.name, "ep-transpose" | "ep-set-up" | "krk" | "kpk-stalemate");
+            if !thorough && !((si < 1 && (*n == 1 || *n == 16)) || (s.name == "ep-transpose" && (*n == 2 || *n == 4)) || (small && *n == 1)) {
+                continue;
+            }
+            let r = call(&mut MoveGenerator::new(), &p, pd, Some(pl));
+            check(&format!("rayon pool of {} thread(s)", n), s, &p, pd, r, tab, &mut calls, &mut counted);
+        }
+        // ---- the remaining configurations use cheap generators (hooks: reduced LRU capacity, shared
+        // copy of the magic tables) so that hundreds of calls fit the budget; the configurations
+        // above ran with the engine's own generator construction
+        crate::search::use_small_generators();
         // (c') the generator that has just counted the same board for the OTHER colour at the same
         // depth (a consistent set-up position when nobody is in check and no ep target is pending)
         {
@@ -143,6 +159,30 @@ pub fn run(a: &Args) -> i32 {
                 }
             }
         }
+        // (a'') the same generator histories inside pools of one and two threads (a single-thread pool
+        // may take a sequential path through the caller's own generator): deepening 0..D with one
+        // generator, and the other colour first, for the small seeds and the initial position
+        if matches!(s.name, "startpos" | "ep-transpose" | "ep-set-up" | "krk" | "kpk-stalemate" | "promo-race" | "ep-rank-pin-pre") {
+            let cap = if s.name == "startpos" { if thorough { 4 } else { 3 } } else if thorough { dmax } else { dmax.min(4) };
+            for n in [1usize, 2] {
+                let pl = rayon::ThreadPoolBuilder::new().num_threads(n).build().unwrap();
+                let mut g = MoveGenerator::new();
+                for d in 0..=cap {
+                    let r = call(&mut g, &p, d, Some(&pl));
+                    check(&format!("generator that served the smaller depths, rayon pool of {} thread(s)", n), s, &p, d, r, tab, &mut calls, &mut counted);
+                }
+                let mut flipped = p.clone();
+                flipped.stm = p.stm.other();
+                if p.ep.is_none() && !p.in_check(p.stm) && flipped.is_consistent() {
+                    for d in 0..=cap.min(3) {
+                        let mut g = MoveGenerator::new();
+                        let _ = call(&mut g, &flipped, d, Some(&pl));
+                        let r = call(&mut g, &p, d, Some(&pl));
+                        check(&format!("generator that just counted the same board for the other colour, rayon pool of {} thread(s)", n), s, &p, d, r, tab, &mut calls, &mut counted);
+                    }
+                }
+            }
+        }
         // (d') every pool size 1..16 at depth 1 (quick: initial position and pos3; thorough: all seeds)
         if thorough || matches!(s.name, "startpos" | "pos3") {
             for n in 1..=16usize {
@@ -152,18 +192,8 @@ pub fn run(a: &Args) -> i32 {
                 check(&format!("rayon pool of {} thread(s)", n), s, &p, d, r, tab, &mut calls, &mut counted);
             }
         }
-        // (d) pool sizes
-        let pd = if thorough { dmax } else { dmax.min(3) };
-        for (n, pl) in &pools {
-            // quick tier: all four pool sizes on the first two seeds and on the ep-transposition
-            // seed, a single-thread pool (sequential order) on three more small ones
-            let small = matches!(s.name, "ep-transpose" | "ep-set-up" | "krk" | "kpk-stalemate");
-            if !thorough && !((si < 1 && (*n == 1 || *n == 16)) || (s.name == "ep-transpose" && (*n == 2 || *n == 4)) || (small && *n == 1)) {
-                continue;
-            }
-            let r = call(&mut MoveGenerator::new(), &p, pd, Some(pl));
-            check(&format!("rayon pool of {} thread(s)", n), s, &p, pd, r, tab, &mut calls, &mut counted);
-        }
+        chess::verif_hooks::set_lru_capacity(0);
+        chess::verif_hooks::set_share_magic_tables(false);
         samples.push(json!({"seed": s.name, "fen": s.fen, "max_depth": dmax, "true_counts_by_depth": (0..=dmax).map(|d| expected(&p, d, tab)).collect::<Vec<_>>()}));
     }
     drop(check);
